@@ -90,9 +90,11 @@ def normalizeNewlines : Str → Str
 def isXmlDoc (s : Str) : Bool := startsWith s (lit "<?xml")
 
 /-- `PageTemplate(src)()` for a statement-free `src` (str input) -/
-def staticRender (q : Quirks) (restricted : Bool) (src : Str) : SRes Str := do
+def staticRenderWith (rx : Rx) (q : Quirks) (restricted : Bool) (src : Str) : SRes Str := do
   let body := if isXmlDoc src then src else normalizeNewlines src
-  let items ← liftC (parseTokens restricted (iterXml body))
+  let items ← liftC (parseTokens rx restricted (iterXmlWith rx.xmlSpe body))
   staticItems q items
+
+def staticRender (q : Quirks) (restricted : Bool) (src : Str) : SRes Str := staticRenderWith Rx.live q restricted src
 
 end ChamVerif
